@@ -375,7 +375,45 @@ theorem C10_tables_unconditional_minimal :
       !(e.1 == 0) || e.2.2.1.all (fun a => a == eptid))) = true := by
   decide +kernel
 
+/-- The pinned Code-of-Conduct clause: when every governing item keyed by a `coco` category is
+    flagged ONLY_REQUIRED in the table (what `C10_tables_coco_only_required` establishes for the
+    bundled tables), the model's release meets `cocoPinned`. -/
+theorem C10_coco_pinned (coco : α → Bool) (c : Ctx α ρ) (identity : Ava α) (required optional : List (ReqAttr α))
+    (hT : ∀ entries, catsInEffect c = some entries →
+      ∀ e ∈ entries, keyMentions coco e.key = true → e.onlyRequired = true) :
+    cocoPinned coco c required (policyFilter c identity required optional) = true := by
+  unfold cocoPinned
+  cases hres : policyFilter c identity required optional with
+  | error e => rfl
+  | ok r =>
+    cases hc : catsInEffect c with
+    | none => rfl
+    | some entries =>
+      simp only
+      have hmap : entries.map (pinEntry coco) = entries := by
+        have : ∀ e ∈ entries, pinEntry coco e = e := by
+          intro e he
+          unfold pinEntry
+          cases hk : keyMentions coco e.key with
+          | false => simp
+          | true =>
+            have ho := hT entries hc e he hk
+            cases e
+            simp only at ho
+            simp [ho]
+        calc entries.map (pinEntry coco) = entries.map id := List.map_congr_left this
+          _ = entries := List.map_id _
+      rw [hmap]
+      apply List.all_eq_true.mpr
+      intro p hp
+      obtain ⟨_, _, _, _, hb⟩ := (policyFilter_sound hres).1 p hp
+      rw [hc] at hb
+      simp only at hb
+      simpa using hb
+
 /-! ### non-vacuity: concrete instances -/
+
+deriving instance DecidableEq for Except
 
 private def uid : ReqAttr Nat := { name := 10 }
 private def mailWith (vs : List Nat) : ReqAttr Nat := { name := 20, values := vs }
